@@ -523,33 +523,55 @@ def bitRangesValidated (d : Device) : M Device :=
 
 /-! ### 9. refs_validated -/
 
-/-- `HashMap::insert`: a later ref to the same target replaces the earlier one; we keep insertion
-    order of first occurrence for the deterministic reading. -/
-def mapInsert (m : List (String × String)) (k v : String) : List (String × String) :=
-  if m.any (·.1 == k) then m.map fun (k', v') => if k' == k then (k', v) else (k', v') else m ++ [(k, v)]
+inductive RefKind | block | register | command
+  deriving DecidableEq, Repr
 
-def refsValidated (d : Device) : M Device := do
+def RefKind.name : RefKind → String
+  | .block => "block" | .register => "register" | .command => "command"
+
+def overrideKind : ObjectOverride → RefKind
+  | .block _ => .block | .register _ => .register | .command _ => .command
+
+/-- `(target, reffer)` of every ref of kind `k`, in pre-order. -/
+def refsOfKind (objs : List Object) (k : RefKind) : List (String × String) :=
+  objs.filterMap fun o => match o with
+    | .ref r => if overrideKind r.override = k then some (r.override.name, r.name) else none
+    | _ => none
+
+/-- names of the real objects of kind `k` -/
+def realsOfKind (objs : List Object) (k : RefKind) : List String :=
+  objs.filterMap fun o => match o, k with
+    | .block h _, .block => some h.name
+    | .register r, .register => some r.name
+    | .command c, .command => some c.name
+    | _, _ => none
+
+/-- One of the three loops of `refs_validated`: the refs are kept in a `BTreeMap` keyed by target
+    (a later ref to the same target replaces the earlier one), iterated by increasing target name;
+    the first target that is not a real object of that kind is reported with its (last) reffer. -/
+def reportBadRefs (refs bad : List (String × String)) (k : RefKind) : M Unit :=
+  match bad with
+  | [] => .ok ()
+  | b :: bs =>
+    let target := (bs.foldl (fun m x => if x.1 < m.1 then x else m) b).1
+    let reffer := ((refs.filter (fun x => x.1 == target)).getLast?.map (·.2)).getD b.2
+    .error (.error { stage := "pass", kind := s!"unknown_ref_{k.name}", names := [reffer, target] })
+
+def checkRefKind (objs : List Object) (k : RefKind) : M Unit :=
+  reportBadRefs (refsOfKind objs k)
+    ((refsOfKind objs k).filter (fun x => !(realsOfKind objs k).contains x.1)) k
+
+def refsValidated (d : Device) : M Device :=
   let objs := allObjects d.objects
-  let reffed (sel : ObjectOverride → Bool) : List (String × String) :=
-    objs.foldl (fun m o => match o with
-      | .ref r => if sel r.override then mapInsert m r.override.name r.name else m
-      | _ => m) []
-  let real (sel : Object → Bool) : List String := (objs.filter sel).map (·.name)
-  -- the maps are `BTreeMap`s: iteration is by increasing target name
-  let check (kind : String) (refs : List (String × String)) (reals : List String) : M Unit := do
-    let bad := refs.filter fun (target, _) => !reals.contains target
-    match bad with
-    | [] => pure ()
-    | b :: bs =>
-      let (target, reffer) := bs.foldl (fun m x => if x.1 < m.1 then x else m) b
-      throw (.error { stage := "pass", kind := kind, names := [reffer, target] })
-  check "unknown_ref_block" (reffed fun | .block _ => true | _ => false)
-    (real fun | .block _ _ => true | _ => false)
-  check "unknown_ref_register" (reffed fun | .register _ => true | _ => false)
-    (real fun | .register _ => true | _ => false)
-  check "unknown_ref_command" (reffed fun | .command _ => true | _ => false)
-    (real fun | .command _ => true | _ => false)
-  pure d
+  match checkRefKind objs .block with
+  | .error e => .error e
+  | .ok () =>
+    match checkRefKind objs .register with
+    | .error e => .error e
+    | .ok () =>
+      match checkRefKind objs .command with
+      | .error e => .error e
+      | .ok () => .ok d
 
 /-! ### 10. address_types_specified -/
 
